@@ -65,6 +65,14 @@ def configs(tier):
     return c
 
 
+def _known_keys():
+    import vcommon
+    return set(vcommon.load_known().get(PROPERTY, {}))
+
+
+KNOWN_KEYS = _known_keys()
+
+
 def run_config(cfg):
     return globals()["run_" + cfg["kind"]](cfg)
 
@@ -134,8 +142,12 @@ def invariants(gene, db_alleles=None):
     for an, a in gene.alleles.items():
         key = (a.cn_config, frozenset(a.func_muts))
         if key in seen:
-            probs.append(("major-duplicate", f"major alleles {seen[key]} and {an} have the "
-                                             f"same structure and core variants"))
+            # a partial allele derived for a bare fusion that coincides with another
+            # fusion allele of the same shape is a separate (known) mechanism
+            kind_ = "major-duplicate-partial" if ("#" in an) != ("#" in seen[key]) \
+                else "major-duplicate"
+            probs.append((kind_, f"major alleles {seen[key]} and {an} have the "
+                                 f"same structure and core variants"))
         seen[key] = an
     # minors of one major differ
     for an, a in gene.alleles.items():
@@ -244,7 +256,8 @@ def run_gen(cfg):
         n += 1
         for asp in ("loads", "partition", "content", "builds"):
             ps = [p for p in probs if aspect(p[0]) == asp]
-            ob(res, f"{tag}: {asp}", "holds" if not ps else "sat")
+            ob(res, f"{tag}: {asp}", "holds" if not ps else (
+                "known-finding" if all(p[0] in KNOWN_KEYS for p in ps) else "sat"))
         kinds_ = {}
         for p in probs:
             kinds_.setdefault(p[0], p)
@@ -271,7 +284,8 @@ def aspect(key):
         return "loads"
     if key.startswith("build"):
         return "builds"
-    if key in ("unreachable", "not-unique", "major-duplicate", "minor-duplicate",
+    if key in ("unreachable", "not-unique", "major-duplicate", "major-duplicate-partial",
+               "minor-duplicate",
                "config-missing", "config-list"):
         return "partition"
     return "content"
